@@ -167,6 +167,8 @@ enum RSpec {
     Zero,       // r = 0    -> error
     Neg,        // r = -1   -> error
     Abs(f64),   // r given directly (skipped when it is within 1e-9 of a data distance)
+    Inf,        // r = +infinity: a valid radius (r > 0); every point
+    Max,        // r = f64::MAX
 }
 
 struct Case<'a> {
@@ -257,6 +259,8 @@ fn sweep<D: Distance<P, f64>>(dist: D, c: &Case) -> Value {
             RSpec::Above => (ds[m - 1] + 1.0, proj(ds[m - 1])),
             RSpec::Zero => (0.0, 0),
             RSpec::Neg => (-1.0, 0),
+            RSpec::Inf => (f64::INFINITY, proj(ds[m - 1])),
+            RSpec::Max => (f64::MAX, proj(ds[m - 1])),
             RSpec::Abs(r) if r > 0.0 && ds.iter().all(|&d| (d - r).abs() > 1.0e-9 * (1.0 + r)) => {
                 // key of the largest data distance below r
                 match ds.iter().rposition(|&d| d < r) {
@@ -266,8 +270,8 @@ fn sweep<D: Distance<P, f64>>(dist: D, c: &Case) -> Value {
             }
             _ => continue,
         };
-        if !r.is_finite() {
-            continue;
+        if r.is_nan() {
+            continue; // NaN is outside the domain of the statement (neither r > 0 nor r <= 0)
         }
         // a midpoint that rounds onto one of its ends would blur the boundary: skip it
         if let RSpec::Mid(j) = rs {
@@ -283,6 +287,8 @@ fn sweep<D: Distance<P, f64>>(dist: D, c: &Case) -> Value {
             RSpec::Zero => "zero",
             RSpec::Neg => "neg",
             RSpec::Abs(_) => "abs",
+            RSpec::Inf => "inf",
+            RSpec::Max => "max",
         };
         let res = guard(|| {
             s.find_radius(c.q, r)
@@ -299,7 +305,7 @@ fn sweep<D: Distance<P, f64>>(dist: D, c: &Case) -> Value {
 }
 
 fn all_rspecs(max_distinct: usize) -> Vec<RSpec> {
-    let mut v = vec![RSpec::Zero, RSpec::Neg, RSpec::Below, RSpec::Above];
+    let mut v = vec![RSpec::Zero, RSpec::Neg, RSpec::Below, RSpec::Above, RSpec::Inf];
     for j in 0..max_distinct {
         v.push(RSpec::At(j));
         v.push(RSpec::Mid(j));
@@ -401,7 +407,8 @@ fn gen_edge(outp: &str) {
         let n = di.len();
         let data: Vec<P> = di.iter().map(|p| to_f(p, 1)).collect();
         let ks: Vec<usize> = (0..=n + 1).collect();
-        let rs = all_rspecs(n);
+        let mut rs = all_rspecs(n);
+        rs.push(RSpec::Max);
         for qi in qs {
             let q = to_f(qi, 1);
             for m in METRICS4 {
@@ -450,7 +457,7 @@ fn pick_ks(rng: &mut StdRng, n: usize, cnt: usize) -> Vec<usize> {
 }
 
 fn pick_rs(rng: &mut StdRng, n: usize, cnt: usize) -> Vec<RSpec> {
-    let mut rs = vec![RSpec::Zero, RSpec::Neg, RSpec::Below, RSpec::Above];
+    let mut rs = vec![RSpec::Zero, RSpec::Neg, RSpec::Below, RSpec::Above, if rng.gen_bool(0.5) { RSpec::Inf } else { RSpec::Max }];
     for _ in 0..cnt {
         let j = rng.gen_range(0..n);
         // index into the distinct distances; out-of-range requests are skipped by `sweep`
@@ -819,7 +826,18 @@ fn est_event_with<D: Distance<P, f64>>(
         "negZeroAt": c.y.iter().enumerate().filter(|(_, v)| **v == 0.0 && v.is_sign_negative()).map(|(i, _)| i).collect::<Vec<_>>(),
         "api": c.api, "batchLen": if c.batch_len == 0 { c.qs.len() } else { c.batch_len },
         "u": 2, "ident": c.x.iter().all(|r| *r == c.x[0]),
-        "X": c.x.iter().map(|r| to_i(r, 2)).collect::<Vec<_>>(), "y": to_i(c.y, 1)});
+        "X": c.x.iter().map(|r| to_i(r, 2)).collect::<Vec<_>>(),
+        // regression targets are small integers; class labels are arbitrary floats and are logged
+        // as their dense ranks among the training labels (order- and equality-preserving; a
+        // predicted value that is not one of the training labels gets rank -1)
+        "y": if c.kind == "cls" { dense_ranks(c.y) } else { to_i(c.y, 1) },
+        "nClasses": if c.kind == "cls" { dense_ranks(c.y).iter().copied().max().unwrap_or(0) } else { 0 }});
+    let label_rank = |v: f64| -> Option<i64> {
+        let mut l: Vec<f64> = c.y.to_vec();
+        l.sort_by(|a, b| a.partial_cmp(b).unwrap());
+        l.dedup();
+        if v.is_nan() { None } else { Some(l.iter().position(|&x| x == v).map(|i| i as i64 + 1).unwrap_or(-1)) }
+    };
     let mut preds: Vec<Value> = Vec::new();
     let q10 = Q::new(10);
     let via_trait = c.api == "trait";
@@ -842,7 +860,7 @@ fn est_event_with<D: Distance<P, f64>>(
                         model.predict(&qm)
                     });
                     preds.push(match r {
-                        Ok(Ok(v)) => match (v.len(), int_exact(*v.get(0).unwrap_or(&f64::NAN))) {
+                        Ok(Ok(v)) => match (v.len(), label_rank(*v.get(0).unwrap_or(&f64::NAN))) {
                             (1, Some(o)) => json!({"q": to_i(q, 2), "status": "ok", "out": o}),
                             _ => json!({"q": to_i(q, 2), "status": "garbled"}),
                         },
@@ -857,7 +875,7 @@ fn est_event_with<D: Distance<P, f64>>(
                 } else {
                     model.predict(&qm)
                 }) {
-                    Ok(Ok(v)) => match v.iter().map(|&x| int_exact(x)).collect::<Option<Vec<i64>>>() {
+                    Ok(Ok(v)) => match v.iter().map(|&x| label_rank(x)).collect::<Option<Vec<i64>>>() {
                         Some(o) => json!({"status": "ok", "out": o}),
                         None => json!({"status": "garbled"}),
                     },
@@ -944,9 +962,15 @@ fn gen_est(outp: &str) {
         // every fourth group labels one class 0, written as +0.0 or -0.0 at random: the two are
         // the same label value (the event carries the integer 0 for both)
         let zero_labels = g % 4 == 3;
+        // every fourth group draws its labels from a set with a special arithmetic shape:
+        // non-integers between integers, labels that collide under truncation, labels closer
+        // than machine epsilon, integers times 2^-60, the extreme finite values
+        let special: [&[f64]; 6] = [&[0.0, 0.5, 2.0], &[0.25, 0.75], &[-0.5, 0.5, 0.0], &[0.0, 1.0e-17, 1.0],
+            &[8.673617379884035e-19, 1.734723475976807e-18, 2.6020852139652106e-18], &[f64::MAX, -f64::MAX, 0.0]];
         let labels: Vec<f64> = if zero_labels { vec![0.0, 1.0, 5.0][..rng.gen_range(2..=3)].to_vec() }
+            else if g % 4 == 1 { special[(g / 4) % 6].to_vec() }
             else { let mut l = vec![-3.0, 5.0, 10.0]; l.shuffle(&mut rng); l.truncate(rng.gen_range(2..=3)); l };
-        let ycls: Vec<f64> = (0..n).map(|_| { let v = *labels.choose(&mut rng).unwrap(); if v == 0.0 && rng.gen_bool(0.5) { -0.0 } else { v } }).collect();
+        let ycls: Vec<f64> = (0..n).map(|_| { let v = *labels.choose(&mut rng).unwrap(); if v == 0.0 && zero_labels && rng.gen_bool(0.5) { -0.0 } else { v } }).collect();
         let yreg: Vec<f64> = (0..n).map(|_| rng.gen_range(-8..=8i64) as f64).collect();
         // queries (half units on the spec side): training rows, lattice points, half-integer points
         let mut qs: Vec<P> = vec![x[rng.gen_range(0..n)].clone()];
@@ -1144,6 +1168,8 @@ fn rerun(inp: &str, outp: &str) {
                             ("mid", Some(j)) => rs.push(RSpec::Mid(j)),
                             ("below", _) => rs.push(RSpec::Below),
                             ("above", _) => rs.push(RSpec::Above),
+                            ("inf", _) => rs.push(RSpec::Inf),
+                            ("max", _) => rs.push(RSpec::Max),
                             ("zero", _) => rs.push(RSpec::Zero),
                             ("neg", _) => rs.push(RSpec::Neg),
                             _ => {}
@@ -1228,7 +1254,7 @@ fn gen_ladder(outp: &str) {
             (0..dims).map(|_| rng.gen_range(0..if chain { 2 * n } else { 24 }) as f64 / 2.0).collect(),
         ];
         let ks = vec![0, 1, 2, n / 2, n - 1, n, n + 1];
-        let rs = vec![RSpec::Zero, RSpec::Below, RSpec::Above, RSpec::At(0), RSpec::At(1), RSpec::Mid(1), RSpec::At(5), RSpec::Mid(7),
+        let rs = vec![RSpec::Zero, RSpec::Below, RSpec::Above, RSpec::Inf, RSpec::Max, RSpec::At(0), RSpec::At(1), RSpec::Mid(1), RSpec::At(5), RSpec::Mid(7),
             RSpec::Mid(if chain { n / 3 } else { 9 }), RSpec::At(if chain { n / 2 } else { 14 })];
         for q in &qs {
             for &m in &metrics {
@@ -1295,7 +1321,7 @@ fn gen_deep(outp: &str) {
                     far[0].clone()];
                 let ks = vec![1, 2, g, g + 1, n];
                 let rs = vec![RSpec::Abs(2.5 * s), RSpec::Abs(1.25 * s), RSpec::Abs((g as f64 + 0.5) * s), RSpec::At(1), RSpec::Mid(1),
-                    RSpec::At(g - 1), RSpec::Mid(g - 1), RSpec::Above, RSpec::Abs(extent / 3.0)];
+                    RSpec::At(g - 1), RSpec::Mid(g - 1), RSpec::Above, RSpec::Abs(extent / 3.0), RSpec::Inf];
                 emit(&mut out, &data, &qs, &ks, &rs, [Metric::Euc, Metric::Man][(rep + e as usize) % 2]);
             }
         }
@@ -1365,6 +1391,31 @@ fn gen_estbig(outp: &str) {
                         let c = EstCase { run, kind, metric: Metric::Man, backend: b, weight: w, k, x: &x,
                             y: if kind == "cls" { &ycls } else { &yreg }, qs: &qs, order,
                             batch_len: blens[(si + ki + run as usize) % 4], api: if run % 2 == 0 { "inherent" } else { "trait" } };
+                        out.emit(est_event(Distances::manhattan(), &c));
+                    }
+                }
+            }
+        }
+    }
+    // ---- many classes: 257 .. 400 distinct labels, one or two rows per class on a 1-D chain
+    // (class index grows with the position); queries next to rows of the highest classes
+    for (ci, &nc) in [257usize, 300, 400].iter().enumerate() {
+        for per in 1..=2usize {
+            if !thorough() && (ci + per) % 2 == 1 && nc != 257 { continue; }
+            let n = nc * per;
+            let mut perm: Vec<usize> = (0..n).collect();
+            perm.shuffle(&mut rng);
+            let x: Vec<P> = perm.iter().map(|&v| vec![v as f64]).collect();
+            let ycls: Vec<f64> = perm.iter().map(|&v| 1000.0 + 3.0 * (v / per) as f64 + if (v / per) % 2 == 0 { 0.5 } else { 0.0 }).collect();
+            let qs: Vec<P> = vec![vec![(n - 1) as f64], vec![(n - 2) as f64 + 0.5], vec![(256 * per) as f64], vec![(256 * per) as f64 + 0.5 * per as f64],
+                vec![(n / 2) as f64 + 0.5], vec![1.0]];
+            for &k in &[2usize, 3] {
+                for b in BACKENDS {
+                    for w in ["uniform", "distance"] {
+                        run += 1;
+                        if !thorough() && run % 2 == 0 { continue; }
+                        let c = EstCase { run, kind: "cls", metric: Metric::Man, backend: b, weight: w, k, x: &x, y: &ycls, qs: &qs,
+                            order: ORDERS_D[rng.gen_range(0..26)], batch_len: 0, api: if run % 4 < 2 { "inherent" } else { "trait" } };
                         out.emit(est_event(Distances::manhattan(), &c));
                     }
                 }
